@@ -5,6 +5,7 @@ import Mathlib.Tactic.SplitIfs
 import Mathlib.Algebra.BigOperators.Ring.Finset
 import Verif.Lemmas.RatCarrier
 import Verif.Props.C03
+import Verif.Props.C01
 set_option linter.unusedSectionVars false
 set_option linter.unusedSimpArgs false
 set_option linter.unusedVariables false
@@ -323,6 +324,416 @@ theorem C03_self_distance (h : SelfPair inp) (hm : cfg.mode = .global ∨ cfg.mo
   have hrun : run cfg inp = .glob cols (selfScore cfg inp inp.a) := by
     simp only [run, hM, hN, hl, false_or, if_false, h1, getCell_eq_T _ _ _ _ _ (Nat.le_refl _)]
     rw [fillOf_aff cfg inp hd, hval]
+  refine ⟨cols, hrun, ?_⟩
+  simp only [runDist, hrun, Result.sim?, Option.map_some, distance, h.b]
+  congr 1
+  simp only [q_sub, q_div, q_mul, q_add, q_one, Prod.mk.injEq, true_and]
+  have : selfScore cfg inp inp.a + selfScore cfg inp inp.a ≠ 0 := by
+    intro hh; apply hne; linarith
+  field_simp
+  ring
+
+/-! ### local mode -/
+
+theorem U_le_of_le (h : SelfPair inp) (i j : Nat) (hij : i ≤ j) : U cfg inp i ≤ U cfg inp j := by
+  induction j with
+  | zero => have : i = 0 := by omega
+            subst this; exact le_refl _
+  | succ j ih =>
+    by_cases h' : i = j + 1
+    · subst h'; exact le_refl _
+    · exact le_trans (ih (by omega)) (U_mono cfg inp h j)
+
+theorem T_le_U_local (h : SelfPair inp) (hm : cfg.mode = .local) (M : Nat) :
+    ∀ i j, j ≤ M → (T (kernelOf cfg inp).toFill M i j).1 ≤ U cfg inp i + U cfg inp j := by
+  intro i
+  induction i with
+  | zero =>
+    intro j hj
+    rw [T_local_border cfg inp hm M 0 j hj (Or.inl rfl)]
+    have h1 := U_nonneg cfg inp h 0
+    have h2 := U_nonneg cfg inp h j
+    simp only [q_zero]; linarith
+  | succ i ihi =>
+    intro j
+    induction j with
+    | zero =>
+      intro hj
+      rw [T_local_border cfg inp hm M (i + 1) 0 hj (Or.inr rfl)]
+      have h1 := U_nonneg cfg inp h (i + 1)
+      have h2 := U_nonneg cfg inp h 0
+      simp only [q_zero]; linarith
+    | succ j ihj =>
+      intro hj
+      have hT : T (kernelOf cfg inp).toFill M (i + 1) (j + 1) =
+          (kernelOf cfg inp).choose (candUp cfg inp (i + 1) (j + 1) (T (kernelOf cfg inp).toFill M i (j + 1)))
+            (candDiag cfg inp (i + 1) (j + 1) (T (kernelOf cfg inp).toFill M i j).1)
+            (candLeft cfg inp (i + 1) (j + 1) (T (kernelOf cfg inp).toFill M (i + 1) j)) :=
+        T_inner_aff _ M i j (by omega)
+      rw [hT]
+      have hup := ihi (j + 1) hj
+      have hleft := ihj (by omega)
+      have hul := ihi j (by omega)
+      have hch := kernel_chooseOkL cfg inp hm
+        (candUp cfg inp (i + 1) (j + 1) (T (kernelOf cfg inp).toFill M i (j + 1)))
+        (candDiag cfg inp (i + 1) (j + 1) (T (kernelOf cfg inp).toFill M i j).1)
+        (candLeft cfg inp (i + 1) (j + 1) (T (kernelOf cfg inp).toFill M (i + 1) j))
+      have hmi := U_mono cfg inp h i
+      have hmj := U_mono cfg inp h j
+      rcases hch with e | e | e | e <;> rw [e]
+      · show candUp cfg inp (i + 1) (j + 1) (T (kernelOf cfg inp).toFill M i (j + 1)) ≤ _
+        have := candUp_le cfg inp h (i + 1) (j + 1) (T (kernelOf cfg inp).toFill M i (j + 1))
+        linarith
+      · show candDiag cfg inp (i + 1) (j + 1) (T (kernelOf cfg inp).toFill M i j).1 ≤ _
+        have := candDiag_le cfg inp h i j (T (kernelOf cfg inp).toFill M i j).1
+        rw [U_succ cfg inp i, U_succ cfg inp j]
+        linarith
+      · show candLeft cfg inp (i + 1) (j + 1) (T (kernelOf cfg inp).toFill M (i + 1) j) ≤ _
+        have := candLeft_le cfg inp h (i + 1) (j + 1) (T (kernelOf cfg inp).toFill M (i + 1) j)
+        linarith
+      · show (zero : ℚ) ≤ _
+        have h1 := U_nonneg cfg inp h (i + 1)
+        have h2 := U_nonneg cfg inp h (j + 1)
+        simp only [q_zero]; linarith
+
+theorem T_diag_ge_local (h : SelfPair inp) (hm : cfg.mode = .local) (M : Nat) :
+    ∀ i, i ≤ M → 2 * U cfg inp i ≤ (T (kernelOf cfg inp).toFill M i i).1 := by
+  intro i
+  induction i with
+  | zero =>
+    intro hi
+    rw [T_local_border cfg inp hm M 0 0 hi (Or.inl rfl)]
+    simp [U]
+  | succ i ih =>
+    intro hi
+    have hT : T (kernelOf cfg inp).toFill M (i + 1) (i + 1) =
+        (kernelOf cfg inp).choose (candUp cfg inp (i + 1) (i + 1) (T (kernelOf cfg inp).toFill M i (i + 1)))
+          (candDiag cfg inp (i + 1) (i + 1) (T (kernelOf cfg inp).toFill M i i).1)
+          (candLeft cfg inp (i + 1) (i + 1) (T (kernelOf cfg inp).toFill M (i + 1) i)) :=
+      T_inner_aff _ M i i (by omega)
+    rw [hT]
+    have hmax : ∀ a m b : ℚ, m ≤ ((kernelOf cfg inp).choose a m b).1 := by
+      intro a m b
+      simp only [kernelOf, hm, if_true]
+      exact (chooseLocal_max cfg a m b).2.1
+    refine le_trans ?_ (hmax _ _ _)
+    rw [candDiag_diag cfg inp h i, U_succ]
+    have := ih (by omega)
+    linarith
+
+/-- what a returning local run reports: the value of a cell of the table that dominates every cell -/
+theorem local_run_max (hm : cfg.mode = .local) (i0 j0 k l : Nat) (cols : List (Col Nat)) (sim : ℚ)
+    (hr : run cfg inp = .loc i0 j0 k l cols sim) :
+    k ≤ inp.N ∧ l ≤ inp.M ∧ sim = (T (kernelOf cfg inp).toFill inp.M k l).1 ∧
+      ∀ i j, i ≤ inp.N → j ≤ inp.M → (T (kernelOf cfg inp).toFill inp.M i j).1 ≤ sim := by
+  have hd : cfg.mode ≠ .dialign := by simp [hm]
+  simp only [run, hm] at hr
+  split at hr
+  · cases hr
+  · simp only [if_true] at hr
+    have hspec := bestScan_spec cfg (List.drop 1 (rowsRev (fillOf cfg inp) inp.M inp.N).reverse) 1
+      ((zero : ℚ), 0, 0)
+    generalize hbs : bestScan cfg 1 (List.drop 1 (rowsRev (fillOf cfg inp) inp.M inp.N).reverse) (zero, 0, 0) = bs
+      at hr hspec
+    obtain ⟨s, k', l'⟩ := bs
+    simp only at hr
+    split at hr
+    · cases hr
+    · rename_i hkl
+      have hk : k' ≤ inp.N := by omega
+      have hl : l' ≤ inp.M := by omega
+      split at hr
+      case h_2 => cases hr
+      case h_1 i1 j1 cs htb =>
+      cases hr
+      obtain ⟨a1, a2, a3⟩ := hspec
+      simp only [scanRows_length] at a2 a3
+      have hsval : s = (T (kernelOf cfg inp).toFill inp.M k l).1 := by
+        rcases a3 with a3 | ⟨t, u, ht, hu, a3⟩
+        · simp only [Prod.mk.injEq] at a3; omega
+        · rw [scanRows_getD _ _ _ _ ht] at a3 hu
+          simp only [Prod.mk.injEq] at a3
+          obtain ⟨e1, e2, e3⟩ := a3
+          have e2' : k = t + 1 := by omega
+          subst e1 e2' e3
+          simp only [T, fillOf_aff cfg inp hd]
+      have hall : ∀ i j, i ≤ inp.N → j ≤ inp.M → (T (kernelOf cfg inp).toFill inp.M i j).1 ≤ s := by
+        intro i j hi hj
+        by_cases h0 : i = 0 ∨ j = 0
+        · rw [T_local_border cfg inp hm _ _ _ hj h0]; exact a1
+        · obtain ⟨i', rfl⟩ : ∃ i', i = i' + 1 := ⟨i - 1, by omega⟩
+          obtain ⟨j', rfl⟩ : ∃ j', j = j' + 1 := ⟨j - 1, by omega⟩
+          have hmem := a2 i' (by omega) (T (kernelOf cfg inp).toFill inp.M (i'+1) (j'+1)) (by
+            rw [scanRows_getD _ _ _ _ (by omega), fillOf_aff cfg inp hd]
+            have hlen := rowAt_length (kernelOf cfg inp).toFill inp.M (i'+1)
+            simp only [T]
+            exact getD_mem_drop_one _ _ _ (by omega))
+          exact hmem
+      refine ⟨hk, hl, ?_, ?_⟩
+      · rw [getCell_eq_T _ _ _ _ _ hk, fillOf_aff cfg inp hd]
+      · intro i j hi hj
+        rw [getCell_eq_T _ _ _ _ _ hk, fillOf_aff cfg inp hd, ← hsval]
+        exact hall i j hi hj
+
+/-- **C03, self-distance (local mode, exact arithmetic)**: whenever the local kernel returns for a sequence paired
+with itself, the similarity is the self-score and the normalised distance is 0 -/
+theorem C03_self_distance_local (h : SelfPair inp) (hm : cfg.mode = .local)
+    (i0 j0 k l : Nat) (cols : List (Col Nat)) (sim : ℚ) (hr : run cfg inp = .loc i0 j0 k l cols sim)
+    (hne : selfScore cfg inp inp.a ≠ 0) :
+    sim = selfScore cfg inp inp.a ∧ runDist cfg inp = some (selfScore cfg inp inp.a, 0) := by
+  obtain ⟨hk, hl, hsim, hall⟩ := local_run_max cfg inp hm i0 j0 k l cols sim hr
+  have hNM : inp.N = inp.M := by simp [Input.N, Input.M, h.b]
+  have hval : sim = selfScore cfg inp inp.a := by
+    rw [selfScore_eq cfg inp h]
+    have hlen : inp.a.length = inp.M := rfl
+    rw [hlen]
+    have hlo := T_diag_ge_local cfg inp h hm inp.M inp.M (le_refl _)
+    have hge := hall inp.M inp.M (by omega) (le_refl _)
+    have hup := T_le_U_local cfg inp h hm inp.M k l hl
+    have h1 := U_le_of_le cfg inp h k inp.M (by omega)
+    have h2 := U_le_of_le cfg inp h l inp.M hl
+    rw [← hsim] at hup
+    linarith
+  refine ⟨hval, ?_⟩
+  simp only [runDist, hr, Result.sim?, Option.map_some, distance, h.b, hval]
+  congr 1
+  simp only [q_sub, q_div, q_mul, q_add, q_one, Prod.mk.injEq, true_and]
+  have : selfScore cfg inp inp.a + selfScore cfg inp inp.a ≠ 0 := by
+    intro hh; apply hne; linarith
+  field_simp
+  ring
+
+/-! ### dialign mode
+
+The match candidate of cell `(i,j)` is the whole diagonal run back to the border: the value of the border cell it
+starts from plus the pair scores along the diagonal. -/
+
+/-- a pair on a diagonal run never scores more than the two half self-scores -/
+theorem diaPair_le (h : SelfPair inp) (hf : cfg.flavour = 0) (i j : Nat) :
+    diaPair cfg inp (i + 1) (j + 1) ≤
+      wOf cfg inp * inp.scorer (inp.a.getD i 0) (inp.a.getD i 0) / 2 +
+        wOf cfg inp * inp.scorer (inp.a.getD j 0) (inp.a.getD j 0) / 2 := by
+  have hsc : sc inp (i + 1) (j + 1) = inp.scorer (inp.a.getD j 0) (inp.a.getD i 0) := by
+    simp [sc, h.b]
+  have hd := h.dom (inp.a.getD j 0) (inp.a.getD i 0)
+  have hdi := (h.dom (inp.a.getD i 0) (inp.a.getD i 0)).2
+  have hdj := (h.dom (inp.a.getD j 0) (inp.a.getD j 0)).2
+  have hfa := h.factor
+  set s := inp.scorer (inp.a.getD j 0) (inp.a.getD i 0) with hs
+  set di := inp.scorer (inp.a.getD i 0) (inp.a.getD i 0)
+  set dj := inp.scorer (inp.a.getD j 0) (inp.a.getD j 0)
+  have hm : (dj + di) / 2 ≥ 0 := by linarith
+  have key : ∀ c : ℚ, 0 ≤ c → c ≤ inp.factor → s * (1 + c) ≤ (1 + inp.factor) * ((dj + di) / 2) := by
+    intro c hc0 hc1
+    by_cases hs0 : 0 ≤ s
+    · have h1 : s * (1 + c) ≤ ((dj + di) / 2) * (1 + c) := mul_le_mul_of_nonneg_right hd.1 (by linarith)
+      have h2 : ((dj + di) / 2) * (1 + c) ≤ ((dj + di) / 2) * (1 + inp.factor) := mul_le_mul_of_nonneg_left (by linarith) hm
+      linarith
+    · have h1 : s * (1 + c) ≤ 0 := mul_nonpos_of_nonpos_of_nonneg (by linarith) (by linarith)
+      have h2 : 0 ≤ (1 + inp.factor) * ((dj + di) / 2) := mul_nonneg (by linarith) hm
+      linarith
+  have k1 := key inp.factor hfa (le_refl _)
+  have k2 := key (inp.factor / 2) (by linarith) (by linarith)
+  have k0 := key 0 (le_refl _) hfa
+  unfold diaPair wOf
+  simp only [hsc, ← hs, hf, ne_eq, not_true_eq_false, if_false, if_true, q_add, q_mul, q_sub, q_half, q_one, q_big]
+  split_ifs <;> linarith
+
+theorem diaPair_diag (h : SelfPair inp) (hf : cfg.flavour = 0) (i : Nat) :
+    diaPair cfg inp (i + 1) (i + 1) = wOf cfg inp * inp.scorer (inp.a.getD i 0) (inp.a.getD i 0) := by
+  have hsc : sc inp (i + 1) (i + 1) = inp.scorer (inp.a.getD i 0) (inp.a.getD i 0) := by
+    simp [sc, h.b]
+  have hp : pA inp (i + 1) = pB inp (i + 1) := by simp [pA, pB, h.pro]
+  unfold diaPair wOf
+  simp only [hsc, hp, hf, ne_eq, not_true_eq_false, if_false, if_true, q_add, q_mul, q_one]
+  split_ifs <;> ring
+
+/-- the diagonal run that ends in `(i+1, j+1)` and is `l+1` pairs long -/
+theorem diaRun_le (h : SelfPair inp) (hf : cfg.flavour = 0) (i j : Nat) :
+    ∀ (l : Nat) (acc : ℚ), l ≤ i → l ≤ j →
+      diaRun cfg inp (i + 1) (j + 1) l acc ≤
+        acc + (U cfg inp (i + 1) - U cfg inp (i - l)) + (U cfg inp (j + 1) - U cfg inp (j - l)) := by
+  intro l
+  induction l with
+  | zero =>
+    intro acc _ _
+    simp only [diaRun, q_add, Nat.sub_zero]
+    have := diaPair_le cfg inp h hf i j
+    rw [U_succ cfg inp i, U_succ cfg inp j]
+    linarith
+  | succ l ih =>
+    intro acc hi hj
+    simp only [diaRun, q_add]
+    have h1 : i + 1 - (l + 1) = (i - l - 1) + 1 := by omega
+    have h2 : j + 1 - (l + 1) = (j - l - 1) + 1 := by omega
+    rw [h1, h2]
+    have hp := diaPair_le cfg inp h hf (i - l - 1) (j - l - 1)
+    have := ih (acc + diaPair cfg inp (i - l - 1 + 1) (j - l - 1 + 1)) (by omega) (by omega)
+    have hU1 : U cfg inp (i - l) = U cfg inp (i - l - 1) +
+        wOf cfg inp * inp.scorer (inp.a.getD (i - l - 1) 0) (inp.a.getD (i - l - 1) 0) / 2 := by
+      have hh := U_succ cfg inp (i - l - 1)
+      rwa [show i - l - 1 + 1 = i - l by omega] at hh
+    have hU2 : U cfg inp (j - l) = U cfg inp (j - l - 1) +
+        wOf cfg inp * inp.scorer (inp.a.getD (j - l - 1) 0) (inp.a.getD (j - l - 1) 0) / 2 := by
+      have hh := U_succ cfg inp (j - l - 1)
+      rwa [show j - l - 1 + 1 = j - l by omega] at hh
+    have e3 : i - (l + 1) = i - l - 1 := by omega
+    have e4 : j - (l + 1) = j - l - 1 := by omega
+    rw [e3, e4]
+    linarith
+
+theorem diaRun_diag (h : SelfPair inp) (hf : cfg.flavour = 0) (i : Nat) :
+    ∀ (l : Nat) (acc : ℚ), l ≤ i →
+      diaRun cfg inp (i + 1) (i + 1) l acc = acc + 2 * (U cfg inp (i + 1) - U cfg inp (i - l)) := by
+  intro l
+  induction l with
+  | zero =>
+    intro acc _
+    simp only [diaRun, q_add, Nat.sub_zero]
+    rw [diaPair_diag cfg inp h hf i, U_succ cfg inp i]
+    ring
+  | succ l ih =>
+    intro acc hi
+    simp only [diaRun, q_add]
+    have h1 : i + 1 - (l + 1) = (i - l - 1) + 1 := by omega
+    rw [h1, ih _ (by omega), diaPair_diag cfg inp h hf (i - l - 1)]
+    have hU1 : U cfg inp (i - l) = U cfg inp (i - l - 1) +
+        wOf cfg inp * inp.scorer (inp.a.getD (i - l - 1) 0) (inp.a.getD (i - l - 1) 0) / 2 := by
+      have hh := U_succ cfg inp (i - l - 1)
+      rwa [show i - l - 1 + 1 = i - l by omega] at hh
+    have e3 : i - (l + 1) = i - l - 1 := by omega
+    rw [e3, hU1]
+    ring
+
+theorem T_dia_border (M i j : Nat) (hj : j ≤ M) (h0 : i = 0 ∨ j = 0) :
+    (T (dialignFill cfg inp) M i j).1 = 0 := by
+  match i, j with
+  | 0, 0 => rw [T_corner]; simp [dialignFill]
+  | 0, j+1 => rw [T_row0 _ _ _ (by omega)]; simp [dialignFill]
+  | i+1, 0 => rw [T_col0]; simp [dialignFill]
+  | i+1, j+1 => omega
+
+theorem dialignFill_inner (i j : Nat) (prev : List (List (Cell ℚ))) (up left ul : Cell ℚ) :
+    (dialignFill cfg inp).inner i j prev up left ul =
+      chooseGlobal cfg
+        (if (cfg.secondary && inR inp (pB inp i) && !inR inp (pA inp j) && j != inp.M) = true then sub up.1 big else up.1)
+        (diaRun cfg inp i j (min i j - 1) ((prev.getD (min i j - 1) []).getD (j - (min i j - 1) - 1) ((zero : ℚ), 0)).1)
+        (if (cfg.secondary && inR inp (pA inp j) && !inR inp (pB inp i) && i != inp.N) = true then sub left.1 big else left.1) := rfl
+
+/-- the cell the diagonal run of `(i+1, j+1)` starts from -/
+theorem dia_start (M i j : Nat) (hj : j + 1 ≤ M) :
+    (((rowsRev (dialignFill cfg inp) M i).getD (min (i + 1) (j + 1) - 1) []).getD (j + 1 - (min (i + 1) (j + 1) - 1) - 1) ((zero : ℚ), 0)).1 =
+      (T (dialignFill cfg inp) M (i - min i j) (j - min i j)).1 := by
+  have hk : min (i + 1) (j + 1) - 1 = min i j := by omega
+  rw [hk]
+  have hrow := rowsRev_getD (dialignFill cfg inp) M i (i - min i j) (by omega)
+  have : i - (i - min i j) = min i j := by omega
+  rw [this] at hrow
+  rw [hrow]
+  have hidx : j + 1 - min i j - 1 = j - min i j := by omega
+  rw [hidx]
+  unfold T
+  have hlen := rowAt_length (dialignFill cfg inp) M (i - min i j)
+  rw [List.getD_eq_getElem?_getD, List.getD_eq_getElem?_getD, List.getElem?_eq_getElem (by omega)]
+  simp
+
+theorem T_dia_inner (M i j : Nat) (hj : j + 1 ≤ M) :
+    ∃ gapA gapB : ℚ, gapA ≤ (T (dialignFill cfg inp) M i (j + 1)).1 ∧ gapB ≤ (T (dialignFill cfg inp) M (i + 1) j).1 ∧
+      T (dialignFill cfg inp) M (i + 1) (j + 1) =
+        chooseGlobal cfg gapA
+          (diaRun cfg inp (i + 1) (j + 1) (min i j) (T (dialignFill cfg inp) M (i - min i j) (j - min i j)).1) gapB := by
+  rw [T_inner _ M i j (by omega)]
+  have hst := dia_start cfg inp M i j hj
+  have hk : min (i + 1) (j + 1) - 1 = min i j := by omega
+  refine ⟨(if (cfg.secondary && inR inp (pB inp (i + 1)) && !inR inp (pA inp (j + 1)) && (j + 1) != inp.M) = true
+            then sub (T (dialignFill cfg inp) M i (j + 1)).1 big else (T (dialignFill cfg inp) M i (j + 1)).1),
+          (if (cfg.secondary && inR inp (pA inp (j + 1)) && !inR inp (pB inp (i + 1)) && (i + 1) != inp.N) = true
+            then sub (T (dialignFill cfg inp) M (i + 1) j).1 big else (T (dialignFill cfg inp) M (i + 1) j).1), ?_, ?_, ?_⟩
+  · split_ifs
+    · simp only [q_sub, q_big]; linarith
+    · exact le_refl _
+  · split_ifs
+    · simp only [q_sub, q_big]; linarith
+    · exact le_refl _
+  · rw [dialignFill_inner, hst, hk]
+
+theorem T_le_U_dia (h : SelfPair inp) (hf : cfg.flavour = 0) (M : Nat) :
+    ∀ i j, j ≤ M → (T (dialignFill cfg inp) M i j).1 ≤ U cfg inp i + U cfg inp j := by
+  intro i
+  induction i using Nat.strong_induction_on with
+  | _ i ihi =>
+    intro j
+    induction j with
+    | zero =>
+      intro hj
+      rw [T_dia_border cfg inp M i 0 hj (Or.inr rfl)]
+      have h1 := U_nonneg cfg inp h i
+      have h2 := U_nonneg cfg inp h 0
+      linarith
+    | succ j ihj =>
+      intro hj
+      match i, ihi, ihj with
+      | 0, _, _ =>
+        rw [T_dia_border cfg inp M 0 (j + 1) hj (Or.inl rfl)]
+        have h1 := U_nonneg cfg inp h 0
+        have h2 := U_nonneg cfg inp h (j + 1)
+        linarith
+      | i + 1, ihi, ihj =>
+        obtain ⟨gapA, gapB, hA, hB, hT⟩ := T_dia_inner cfg inp M i j hj
+        rw [hT]
+        have hup := ihi i (by omega) (j + 1) hj
+        have hleft := ihj (by omega)
+        have hst := ihi (i - min i j) (by omega) (j - min i j) (by omega)
+        have hrun := diaRun_le cfg inp h hf i j (min i j) (T (dialignFill cfg inp) M (i - min i j) (j - min i j)).1
+          (by omega) (by omega)
+        have hmi := U_mono cfg inp h i
+        have hmj := U_mono cfg inp h j
+        rcases chooseGlobal_ok cfg gapA
+          (diaRun cfg inp (i + 1) (j + 1) (min i j) (T (dialignFill cfg inp) M (i - min i j) (j - min i j)).1) gapB with e | e | e <;>
+          rw [e] <;> simp only <;> linarith
+
+theorem T_diag_ge_dia (h : SelfPair inp) (hf : cfg.flavour = 0) (M : Nat) :
+    ∀ i, i ≤ M → 2 * U cfg inp i ≤ (T (dialignFill cfg inp) M i i).1 := by
+  intro i hi
+  match i with
+  | 0 =>
+    rw [T_dia_border cfg inp M 0 0 hi (Or.inl rfl)]
+    simp [U]
+  | i + 1 =>
+    obtain ⟨gapA, gapB, hA, hB, hT⟩ := T_dia_inner cfg inp M i i hi
+    rw [hT]
+    refine le_trans ?_ (chooseGlobal_max cfg _ _ _).2.1
+    have hmin : min i i = i := by omega
+    rw [hmin, diaRun_diag cfg inp h hf i i _ (le_refl _), Nat.sub_self, T_dia_border cfg inp M 0 0 (by omega) (Or.inl rfl)]
+    simp [U]
+
+/-- **C03, self-distance (dialign mode of the sound-class aligner, exact arithmetic)** -/
+theorem C03_self_distance_dialign (h : SelfPair inp) (hm : cfg.mode = .dialign) (hf : cfg.flavour = 0) (ha : inp.a ≠ [])
+    (hne : selfScore cfg inp inp.a ≠ 0) :
+    ∃ cols, run cfg inp = .glob cols (selfScore cfg inp inp.a) ∧
+      runDist cfg inp = some (selfScore cfg inp inp.a, 0) := by
+  have hl : cfg.mode ≠ .local := by simp [hm]
+  have hb : inp.b ≠ [] := by rw [h.b]; exact ha
+  have hNM : inp.N = inp.M := by simp [Input.N, Input.M, h.b]
+  obtain ⟨cols, sim, hrun, _⟩ := C01_rows cfg inp hl ha hb
+  have hM : inp.M ≠ 0 := by simpa [Input.M] using ha
+  have hN : inp.N ≠ 0 := by simpa [Input.N] using hb
+  -- the similarity is the corner cell of the dialign table
+  have hsim : sim = (T (dialignFill cfg inp) inp.M inp.N inp.M).1 := by
+    simp only [run, hM, hN, hl, false_or, if_false] at hrun
+    split at hrun
+    · simp only [Result.glob.injEq] at hrun
+      rw [← hrun.2, getCell_eq_T _ _ _ _ _ (Nat.le_refl _)]
+      simp [fillOf, hm]
+    · cases hrun
+  have hval : sim = selfScore cfg inp inp.a := by
+    rw [hsim, hNM, selfScore_eq cfg inp h]
+    have hup := T_le_U_dia cfg inp h hf inp.M inp.M inp.M (le_refl _)
+    have hlo := T_diag_ge_dia cfg inp h hf inp.M inp.M (le_refl _)
+    have : inp.a.length = inp.M := rfl
+    rw [this]
+    linarith
+  subst hval
   refine ⟨cols, hrun, ?_⟩
   simp only [runDist, hrun, Result.sim?, Option.map_some, distance, h.b]
   congr 1
